@@ -28,7 +28,10 @@ def make_graph_case(rng, max_e, max_loops, tries=60, catalogue_bias=0.5, names=N
         D = rng.randint(1, 6)
         c = graphs.make_case(rng, edges, D, want=True, ext_mode=rng.choice(["all", "subset", "two", "all"]), tries=30, mass_mode=mass_mode)
         verts = set(v for e in edges for v in e)
-        if len([v for v in c["ext"] if v in verts]) < 2 and not any(c["massive"]):
+        next_on_graph = len([v for v in c["ext"] if v in verts])
+        if next_on_graph == 1 or any(v not in verts for v in c["ext"]):
+            continue    # a single external leg cannot carry momentum: no generic kinematics exists (see DESIGN.md, C07)
+        if next_on_graph < 2 and not any(c["massive"]):
             continue
         if c["accepted"] and c["dod"] > Fraction(1, 20) and c["loops"] == L:
             c["name"] = name
